@@ -122,4 +122,33 @@ impl<D: Digest, const KS: usize, const SS: usize> SnmpAuth for DigestAuth<D, KS,
         data[offset..offset + SS].copy_from_slice(&d2[0..SS]);
         Ok(())
     }
+    fn verify(&self, data: &[u8], offset: usize, size: usize) -> bool {
+        // RFC-3414, pp. 6.3.2. Processing an incoming message
+        if size != SS || data.len() < offset + SS {
+            return false;
+        }
+        // The digest is calculated over the message
+        // with msgAuthenticationParameters replaced by zeroes
+        let rest_len = PADDED_LENGTH - KS;
+        let mut ctx1 = D::new();
+        let k1: Vec<u8> = self.key.iter().map(|&x| x ^ IPAD_VALUE).collect();
+        ctx1.update(k1);
+        ctx1.update(&IPAD_MASK[..rest_len]);
+        ctx1.update(&data[..offset]);
+        ctx1.update(&ZEROES[..SS]);
+        ctx1.update(&data[offset + SS..]);
+        let d1 = ctx1.finalize();
+        let mut ctx2 = D::new();
+        let k2: Vec<u8> = self.key.iter().map(|&x| x ^ OPAD_VALUE).collect();
+        ctx2.update(k2);
+        ctx2.update(&OPAD_MASK[..rest_len]);
+        ctx2.update(&d1[..KS]);
+        let d2 = ctx2.finalize();
+        // Compare without early exit
+        data[offset..offset + SS]
+            .iter()
+            .zip(d2.iter())
+            .fold(0u8, |acc, (x, y)| acc | (x ^ y))
+            == 0
+    }
 }
